@@ -100,7 +100,7 @@ func runPrefix(c *Ctx) {
 		startScenarioPD(c)
 	}()
 	r := c.R
-	pools := []pfxPool{{"2001:db8::/62", 64}, {"2001:db8:0:100::/56", 64}, {"2001:db8:0:218::/60", 64} /* written with host bits set */, {"fd00::/126", 128}, {"2001:db8:1::/48", 56}, {"2001:db8::/63", 64}, {"2001:db8:ffff:ff00::/61", 64}}
+	pools := []pfxPool{{"2001:db8::/62", 64}, {"2001:db8:0:100::/56", 64}, {"2001:db8:0:218::/60", 64} /* written with host bits set */, {"fd00::/126", 128}, {"2001:db8:1::/48", 56}, {"2001:db8::/63", 64}, {"2001:db8:ffff:ff00::/61", 64}, {"fd00::/48", 64}}
 	nh := c.Scale(60, 1500)
 	for hi := 0; hi < nh; hi++ {
 		runPrefixHistory(c, hi, pools[r.Intn(len(pools))], 1+r.Intn(c.Scale(30, 40)), nil)
@@ -242,6 +242,11 @@ func runPrefixHistory(c *Ctx, hi int, pl pfxPool, nmsgs int, script []pfxScript)
 			}
 			return pdHint{ip: ip, plen: pl.page, class: "in-pool"}
 		case 8:
+			if strings.HasPrefix(pl.cidr, "fd00::/48") && r.Bool() {
+				// shorter than the pool itself and not canonical: the address with its host bits cut is the pool
+				// base, the address as written is far outside
+				return pdHint{ip: net.ParseIP("fdff:ffff:ffff:ffff::"), plen: 8, class: "short-non-canonical"}
+			}
 			return pdHint{ip: blockIP(r.Intn(nblocks)), plen: 200, class: "length-over-128"}
 		}
 		return pdHint{ip: blockIP(r.Intn(nblocks)), plen: pl.page - 4, class: "shorter-than-allocation"}
